@@ -34,6 +34,7 @@ fn query<F: Fl>(w: &CWorld<F>, q: &Value, rng_rej: &HashSet<Triple>) -> Value {
                 target: q["target"].as_u64().filter(|t| *t != 0).map(|t| t as K),
                 transpose: q["transpose"].as_bool().unwrap(),
                 meth: match q["meth"].as_str().unwrap() { "plain" => Meth::Plain, "for_each" => Meth::ForEach, _ => Meth::Filter },
+                repeat: false,
             };
             let o = run_query(&world, q["root"].as_u64().unwrap() as K, &query, rng_rej);
             json!({"res": o.res, "rt": res_tag(&o.res), "examined": o.examined})
